@@ -16,7 +16,9 @@
 (* item, or shared and referenced from either), body, form (inline or       *)
 (* shared), resp (inline or shared), def, sec (+ where the requirement is), *)
 (* secnone (operation opts out of security), server, consumes, produces,    *)
-(* method, nopaths (the document has no path at all).                       *)
+(* method, nopaths (the document has no path at all).  Keys of different v2  *)
+(* namespaces may coincide: shared parameters keyed Pet / D (definitions)    *)
+(* and R_default (shared responses).                                         *)
 (*                                                                          *)
 (* The ~17 keywords a parameter-like object carries are swept (each alone,  *)
 (* and in pairs when FieldK = 2) through every place that copies them by    *)
@@ -107,6 +109,20 @@ ParamAtoms ==
     Atom("param", "h@shared:required", "param:op:header:X-H", "shared", "P_h", Prm("header", "X-H", TRUE, KV("type", S("string"))), Nul, 2),
     Atom("param", "id@path:string", "param:path:path:id", "path", "", Prm("path", "id", TRUE, KV("type", S("string"))), Nul, 2),
     Atom("param", "id@shared:integer", "param:op:path:id", "shared", "P_id", Prm("path", "id", TRUE, KV("type", S("integer"))), Nul, 2),
+    \* the same key in two namespaces: a shared non-body parameter whose key is also a definitions key (Pet is always
+    \* there; D when a def atom is combined with it) or also a shared responses key (x carries that response, which the
+    \* operation uses as its default response)
+    Atom("param", "q@shared=Pet", "param:op:query:q", "shared", "Pet", Prm("query", "q", FALSE, KV("type", S("string")) @@ KV("minLength", I(1))), Nul, 1),
+    Atom("param", "q@shared=Pet:required", "param:op:query:q", "shared", "Pet", Prm("query", "q", TRUE, KV("type", S("integer")) @@ KV("maximum", I(9))), Nul, 2),
+    Atom("param", "h@shared=Pet", "param:op:header:X-H", "shared", "Pet", Prm("header", "X-H", FALSE, KV("type", S("integer")) @@ KV("minimum", I(1))), Nul, 1),
+    Atom("param", "id@shared=Pet", "param:op:path:id", "shared", "Pet", Prm("path", "id", TRUE, KV("type", S("string")) @@ KV("maxLength", I(5))), Nul, 2),
+    Atom("param", "q@sharedpath=Pet", "param:path:query:q", "sharedpath", "Pet", Prm("query", "q", FALSE, KV("type", S("array")) @@ KV("items", O(KV("type", S("string")))) @@ KV("minItems", I(1))), Nul, 2),
+    Atom("param", "q@shared=D", "param:op:query:q", "shared", "D", Prm("query", "q", FALSE, KV("type", S("string")) @@ KV("pattern", S("^a"))), Nul, 1),
+    Atom("param", "h@shared=D", "param:op:header:X-H", "shared", "D", Prm("header", "X-H", TRUE, KV("type", S("string"))), Nul, 2),
+    Atom("param", "q@shared=R_default", "param:op:query:q", "shared", "R_default", Prm("query", "q", FALSE, KV("type", S("integer")) @@ KV("minimum", I(1))),
+         O(KV("description", S("problem")) @@ KV("schema", PetRef)), 1),
+    Atom("param", "h@shared=R_default", "param:op:header:X-H", "shared", "R_default", Prm("header", "X-H", FALSE, KV("type", S("string")) @@ KV("enum", A(<<S("ab"), S("b")>>))),
+         O(KV("description", S("problem")) @@ KV("headers", O(KV("X-Why", O(KV("type", S("string"))))))), 2),
     Atom("param", "q2@op:boolean", "param:op:query:a2", "op", "", Prm("query", "a2", FALSE, KV("type", S("boolean"))), Nul, 1),
     Atom("param", "body@query", "param:op2:query:body", "op2", "", Prm("query", "body", FALSE, KV("type", S("string"))), Nul, 1),
     \* both names FromV3 tries for a body parameter are taken by query parameters (x carries the second parameter)
@@ -285,6 +301,10 @@ Compatible(X) ==
    /\ \A a, b \in X : a # b => /\ a.slot # b.slot
                                /\ (a.n = "" \/ a.k # b.k \/ a.n # b.n)
    /\ ~(\E a, b \in X : a.k = "body" /\ b.k = "form")
+   \* a shared parameter that brings a shared response of the same key occupies the default response
+   /\ \A a \in X : (a.k = "param" /\ a.w \in {"shared", "sharedpath"} /\ a.x.t = "obj") =>
+         /\ ~\E b \in X : b.k = "resp" /\ b.n = "default"
+         /\ ~\E b \in X : b # a /\ b.k = "param" /\ b.w \in {"shared", "sharedpath"} /\ b.x.t = "obj"
    /\ \A a \in X : a.k = "consumes" =>
          /\ (\E b \in X : b.k = "form") => IsFormMt(a)
          /\ (\E b \in X : b.k = "body") => ~IsFormMt(a)
@@ -312,8 +332,10 @@ Build(X) ==
                     \cup {refP(a) : a \in {b \in Ks("body") \cup Ks("form") : b.w = "shared"}}
        sharedP == {a \in prm \cup Ks("body") \cup Ks("form") : a.w \in {"shared", "sharedpath"}}
        rs == Ks("resp")
-       codes == {"200"} \cup {a.n : a \in rs}
-       respOf(c) == IF \E a \in rs : a.n = c
+       prX == {a \in prm : a.w \in {"shared", "sharedpath"} /\ a.x.t = "obj"}   \* shared parameter + shared response under one key
+       codes == {"200"} \cup {a.n : a \in rs} \cup (IF prX # {} THEN {"default"} ELSE {})
+       respOf(c) == IF c = "default" /\ prX # {} THEN RefTo("#/responses/" \o (CHOOSE a \in prX : TRUE).n)
+                    ELSE IF \E a \in rs : a.n = c
                     THEN LET a == CHOOSE b \in rs : b.n = c IN
                          IF a.w = "shared" THEN RefTo("#/responses/R_" \o c) ELSE a.v
                     ELSE O(KV("description", S("ok")))
@@ -347,7 +369,9 @@ Build(X) ==
         @@ KV("paths", IF Ks("nopaths") # {} THEN EmptyO ELSE O(KV(p1, item1) @@ KV("/b", item2)))
         @@ KV("definitions", O(KV("Pet", Pet) @@ [n \in {a.n : a \in Ks("def")} |-> (CHOOSE a \in Ks("def") : a.n = n).v]))
         @@ If(sharedP # {}, KV("parameters", O([n \in {a.n : a \in sharedP} |-> (CHOOSE a \in sharedP : a.n = n).v])))
-        @@ If(sharedR # {}, KV("responses", O([n \in {"R_" \o a.n : a \in sharedR} |-> (CHOOSE a \in sharedR : "R_" \o a.n = n).v])))
+        @@ If(sharedR # {} \/ prX # {},
+              KV("responses", O([n \in {a.n : a \in prX} |-> (CHOOSE a \in prX : a.n = n).x]
+                                @@ [n \in {"R_" \o a.n : a \in sharedR} |-> (CHOOSE a \in sharedR : "R_" \o a.n = n).v])))
         @@ If(secs # {}, KV("securityDefinitions", O([n \in {a.n : a \in secs} |-> (CHOOSE a \in secs : a.n = n).v])))
         @@ If(glSec # {}, KV("security", A(SetToSeq({reqOf(a) : a \in glSec}))))
         @@ If(\E a \in cons : a.w = "doc", KV("consumes", (CHOOSE a \in cons : TRUE).v))
